@@ -17,7 +17,7 @@ class C11(LoopCheck):
         out = super().configs(tier)
         kept = []
         for c in out:
-            c["routes"] = ["bytes", "live_dict"] if tier == "quick" else ["bytes", "dict", "live_dict", "file"]
+            c["routes"] = ["bytes", "live_dict", "dict_twice"] if tier == "quick" else ["bytes", "dict", "dict_twice", "live_dict", "file"]
             if c["schedule"].startswith("adaptive") and tier != "quick":
                 # N = 3 adaptive runs are expensive: bytes / live-dict routes only,
                 # without the final-enlargement variant
